@@ -336,3 +336,554 @@ pub fn compiled_backends() -> u8 {
     }
     m
 }
+
+// ------------------------------------------------------------------------
+// Limb-bound monitor for the vectorised field code
+// ------------------------------------------------------------------------
+
+/// Records, per kernel entry ("site"), the largest limb values seen and how
+/// often a documented precondition was exceeded.  The vector kernels wrap
+/// silently, so this is where a violated precondition becomes observable.
+pub mod bounds {
+    use core::sync::atomic::{AtomicU64, Ordering};
+
+    /// Number of monitored sites.
+    pub const SITES: usize = 24;
+
+    pub const AVX2_MUL_LHS: usize = 0;
+    pub const AVX2_MUL_RHS: usize = 1;
+    pub const AVX2_SQUARE: usize = 2;
+    pub const AVX2_NEGATE_LAZY: usize = 3;
+    pub const AVX2_DIFF_SUM: usize = 4;
+    pub const AVX2_NEG: usize = 5;
+    pub const AVX2_MUL_CONSTS: usize = 6;
+    pub const AVX2_REDUCE: usize = 7;
+    pub const IFMA_MUL_LHS: usize = 8;
+    pub const IFMA_MUL_RHS: usize = 9;
+    pub const IFMA_SQUARE: usize = 10;
+    pub const IFMA_NEGATE_LAZY: usize = 11;
+    pub const IFMA_MUL_CONSTS: usize = 12;
+    pub const IFMA_ADD: usize = 13;
+
+    const Z: AtomicU64 = AtomicU64::new(0);
+    /// calls per site
+    pub static CALLS: [AtomicU64; SITES] = [Z; SITES];
+    /// largest even-index limb (26-bit positions; IFMA: any limb) per site
+    pub static MAX_EVEN: [AtomicU64; SITES] = [Z; SITES];
+    /// largest odd-index limb (25-bit positions) per site
+    pub static MAX_ODD: [AtomicU64; SITES] = [Z; SITES];
+    /// number of calls whose operand exceeded the documented precondition
+    pub static EXCEEDED: [AtomicU64; SITES] = [Z; SITES];
+
+    /// Exclusive limits (even limb, odd limb) per site = floor(2^(26+b)), floor(2^(25+b)) for
+    /// the documented b of the kernel (u32 lanes cap at 2^32); IFMA: 2^52 for multiplier
+    /// inputs, the 16p constants for negate_lazy.
+    pub const LIMITS: [(u64, u64); SITES] = [
+        (379625062, 189812531),   // AVX2 mul lhs   b < 2.5
+        (225720125, 112860062),   // AVX2 mul rhs   b < 1.75
+        (189812531, 94906265),    // AVX2 square    b < 1.5
+        (134124453, 67062226),    // AVX2 negate_lazy b < 0.999
+        (67575639, 33787819),     // AVX2 diff_sum  b < 0.01
+        (1073741824, 536870912),  // AVX2 neg       b < 4.0
+        (4294967296, 4294967296), // AVX2 mul consts: any u32 lane (no documented precondition)
+        (4294967296, 4294967296), // AVX2 reduce: any u32 lane
+        (1 << 52, 1 << 52),       // IFMA mul lhs
+        (1 << 52, 1 << 52),       // IFMA mul rhs
+        (1 << 52, 1 << 52),       // IFMA square
+        (36028797018963665, 36028797018963953), // IFMA negate_lazy: limb <= 16p limb (no underflow)
+        (1 << 52, 1 << 52),       // IFMA mul consts
+        (1 << 63, 1 << 63),       // IFMA add: operands below 2^63 cannot wrap
+        (0, 0), (0, 0), (0, 0), (0, 0), (0, 0), (0, 0), (0, 0), (0, 0), (0, 0), (0, 0),
+    ];
+
+    #[inline]
+    pub fn record(site: usize, max_even: u64, max_odd: u64) {
+        CALLS[site].fetch_add(1, Ordering::Relaxed);
+        MAX_EVEN[site].fetch_max(max_even, Ordering::Relaxed);
+        MAX_ODD[site].fetch_max(max_odd, Ordering::Relaxed);
+        let (le, lo) = LIMITS[site];
+        if max_even >= le || max_odd >= lo {
+            EXCEEDED[site].fetch_add(1, Ordering::Relaxed);
+        }
+    }
+
+    /// (calls, max even limb, max odd limb, calls over the limit) for a site
+    pub fn report(site: usize) -> (u64, u64, u64, u64) {
+        (
+            CALLS[site].load(Ordering::Relaxed),
+            MAX_EVEN[site].load(Ordering::Relaxed),
+            MAX_ODD[site].load(Ordering::Relaxed),
+            EXCEEDED[site].load(Ordering::Relaxed),
+        )
+    }
+
+    pub fn reset() {
+        for i in 0..SITES {
+            CALLS[i].store(0, Ordering::Relaxed);
+            MAX_EVEN[i].store(0, Ordering::Relaxed);
+            MAX_ODD[i].store(0, Ordering::Relaxed);
+            EXCEEDED[i].store(0, Ordering::Relaxed);
+        }
+    }
+}
+
+// ------------------------------------------------------------------------
+// AVX2 vector field / point hooks
+// ------------------------------------------------------------------------
+
+/// Raw lanes of a vector field element: AVX2 uses 40 u32 lanes (5 vectors x 8),
+/// IFMA the first 20 entries (5 vectors x 4 u64).
+pub type RawVec = [u64; 40];
+
+#[cfg(curve25519_dalek_backend = "simd")]
+pub mod avx2 {
+    use super::{Fe, RawVec};
+    use crate::backend::vector::avx2::field::{FieldElement2625x4, Lanes, Shuffle};
+    use crate::backend::vector::avx2::{CachedPoint, ExtendedPoint};
+    use crate::backend::vector::packed_simd::u32x8;
+    use crate::edwards::EdwardsPoint;
+
+    pub(crate) fn to_raw(f: &FieldElement2625x4) -> RawVec {
+        let a: [[u32; 8]; 5] = unsafe { core::mem::transmute::<[u32x8; 5], [[u32; 8]; 5]>(f.0) };
+        let mut out = [0u64; 40];
+        for i in 0..5 {
+            for j in 0..8 {
+                out[i * 8 + j] = a[i][j] as u64;
+            }
+        }
+        out
+    }
+
+    pub(crate) fn from_raw(r: &RawVec) -> FieldElement2625x4 {
+        let mut a = [[0u32; 8]; 5];
+        for i in 0..5 {
+            for j in 0..8 {
+                a[i][j] = r[i * 8 + j] as u32;
+            }
+        }
+        FieldElement2625x4(unsafe { core::mem::transmute::<[[u32; 8]; 5], [u32x8; 5]>(a) })
+    }
+
+    /// (max even-index limb, max odd-index limb) over all four lanes
+    #[inline]
+    pub(crate) fn max_limbs(f: &FieldElement2625x4) -> (u64, u64) {
+        let a: [[u32; 8]; 5] = unsafe { core::mem::transmute::<[u32x8; 5], [[u32; 8]; 5]>(f.0) };
+        let (mut me, mut mo) = (0u32, 0u32);
+        for v in a.iter() {
+            // layout (a_2i, b_2i, a_2i+1, b_2i+1, c_2i, d_2i, c_2i+1, d_2i+1)
+            for j in [0usize, 1, 4, 5] {
+                me = me.max(v[j]);
+            }
+            for j in [2usize, 3, 6, 7] {
+                mo = mo.max(v[j]);
+            }
+        }
+        (me as u64, mo as u64)
+    }
+
+    fn shuffle_of(s: &str) -> Shuffle {
+        match s {
+            "AAAA" => Shuffle::AAAA,
+            "BBBB" => Shuffle::BBBB,
+            "CACA" => Shuffle::CACA,
+            "DBBD" => Shuffle::DBBD,
+            "ADDA" => Shuffle::ADDA,
+            "CBCB" => Shuffle::CBCB,
+            "ABAB" => Shuffle::ABAB,
+            "BADC" => Shuffle::BADC,
+            "BACD" => Shuffle::BACD,
+            "ABDC" => Shuffle::ABDC,
+            _ => panic!("verif: unknown shuffle"),
+        }
+    }
+
+    fn lanes_of(s: &str) -> Lanes {
+        match s {
+            "C" => Lanes::C,
+            "D" => Lanes::D,
+            "AB" => Lanes::AB,
+            "AC" => Lanes::AC,
+            "CD" => Lanes::CD,
+            "AD" => Lanes::AD,
+            "BC" => Lanes::BC,
+            "ABCD" => Lanes::ABCD,
+            _ => panic!("verif: unknown lanes"),
+        }
+    }
+
+    pub fn new(x: &[Fe; 4]) -> RawVec {
+        to_raw(&FieldElement2625x4::new(&x[0].0, &x[1].0, &x[2].0, &x[3].0))
+    }
+    pub fn splat(x: &Fe) -> RawVec {
+        to_raw(&FieldElement2625x4::splat(&x.0))
+    }
+    pub fn split(r: &RawVec) -> [Fe; 4] {
+        let s = from_raw(r).split();
+        [Fe(s[0]), Fe(s[1]), Fe(s[2]), Fe(s[3])]
+    }
+    pub fn mul(a: &RawVec, b: &RawVec) -> RawVec {
+        to_raw(&(&from_raw(a) * &from_raw(b)))
+    }
+    pub fn square_and_negate_d(a: &RawVec) -> RawVec {
+        to_raw(&from_raw(a).square_and_negate_D())
+    }
+    pub fn reduce(a: &RawVec) -> RawVec {
+        to_raw(&from_raw(a).reduce())
+    }
+    pub fn negate_lazy(a: &RawVec) -> RawVec {
+        to_raw(&from_raw(a).negate_lazy())
+    }
+    pub fn neg(a: &RawVec) -> RawVec {
+        to_raw(&(-from_raw(a)))
+    }
+    pub fn diff_sum(a: &RawVec) -> RawVec {
+        to_raw(&from_raw(a).diff_sum())
+    }
+    pub fn add(a: &RawVec, b: &RawVec) -> RawVec {
+        to_raw(&(from_raw(a) + from_raw(b)))
+    }
+    pub fn shuffle(a: &RawVec, ctl: &str) -> RawVec {
+        to_raw(&from_raw(a).shuffle(shuffle_of(ctl)))
+    }
+    pub fn blend(a: &RawVec, b: &RawVec, ctl: &str) -> RawVec {
+        to_raw(&from_raw(a).blend(from_raw(b), lanes_of(ctl)))
+    }
+    pub fn mul_consts(a: &RawVec, c: (u32, u32, u32, u32)) -> RawVec {
+        to_raw(&(from_raw(a) * c))
+    }
+    pub fn conditional_select(a: &RawVec, b: &RawVec, c: bool) -> RawVec {
+        use subtle::ConditionallySelectable;
+        to_raw(&FieldElement2625x4::conditional_select(
+            &from_raw(a),
+            &from_raw(b),
+            subtle::Choice::from(c as u8),
+        ))
+    }
+
+    // point formulas
+    pub fn ext_from_edwards(p: &EdwardsPoint) -> RawVec {
+        to_raw(&ExtendedPoint::from(*p).verif_inner())
+    }
+    pub fn ext_to_edwards(r: &RawVec) -> EdwardsPoint {
+        EdwardsPoint::from(ExtendedPoint::verif_from_inner(from_raw(r)))
+    }
+    pub fn ext_double(r: &RawVec) -> RawVec {
+        to_raw(&ExtendedPoint::verif_from_inner(from_raw(r)).double().verif_inner())
+    }
+    pub fn ext_mul_by_pow_2(r: &RawVec, k: u32) -> RawVec {
+        to_raw(&ExtendedPoint::verif_from_inner(from_raw(r)).mul_by_pow_2(k).verif_inner())
+    }
+    pub fn cached_from_ext(r: &RawVec) -> RawVec {
+        to_raw(&CachedPoint::from(ExtendedPoint::verif_from_inner(from_raw(r))).verif_inner())
+    }
+    pub fn cached_neg(r: &RawVec) -> RawVec {
+        to_raw(&(-&CachedPoint::verif_from_inner(from_raw(r))).verif_inner())
+    }
+    pub fn ext_add_cached(a: &RawVec, b: &RawVec) -> RawVec {
+        let e = ExtendedPoint::verif_from_inner(from_raw(a));
+        let c = CachedPoint::verif_from_inner(from_raw(b));
+        to_raw(&(&e + &c).verif_inner())
+    }
+    pub fn ext_sub_cached(a: &RawVec, b: &RawVec) -> RawVec {
+        let e = ExtendedPoint::verif_from_inner(from_raw(a));
+        let c = CachedPoint::verif_from_inner(from_raw(b));
+        to_raw(&(&e - &c).verif_inner())
+    }
+    /// kind 0: `LookupTable` (1P..8P), 1: `NafLookupTable5` (1,3,..,15 P), 2: `NafLookupTable8` (1,3,..,127 P)
+    #[cfg(feature = "alloc")]
+    pub fn table(kind: u32, p: &EdwardsPoint) -> alloc::vec::Vec<RawVec> {
+        use crate::window::{LookupTable, NafLookupTable5, NafLookupTable8};
+        match kind {
+            0 => LookupTable::<CachedPoint>::from(p).0.iter().map(|c| to_raw(&c.verif_inner())).collect(),
+            1 => NafLookupTable5::<CachedPoint>::from(p).0.iter().map(|c| to_raw(&c.verif_inner())).collect(),
+            2 => NafLookupTable8::<CachedPoint>::from(p).0.iter().map(|c| to_raw(&c.verif_inner())).collect(),
+            _ => panic!("verif: table kind"),
+        }
+    }
+    /// constant-time lookup in a `LookupTable<CachedPoint>` built from p
+    pub fn table_select(p: &EdwardsPoint, x: i8) -> RawVec {
+        use crate::window::LookupTable;
+        to_raw(&LookupTable::<CachedPoint>::from(p).select(x).verif_inner())
+    }
+
+    /// constants of the AVX2 backend: (name, raw lanes)
+    #[cfg(feature = "alloc")]
+    pub fn constants() -> alloc::vec::Vec<(alloc::string::String, alloc::vec::Vec<u64>)> {
+        use crate::backend::vector::avx2::constants as k;
+        use alloc::string::ToString;
+        let mut out = alloc::vec::Vec::new();
+        let v8 = |x: u32x8| -> alloc::vec::Vec<u64> {
+            let a: [u32; 8] = unsafe { core::mem::transmute::<u32x8, [u32; 8]>(x) };
+            a.iter().map(|v| *v as u64).collect()
+        };
+        out.push(("avx2.P_TIMES_2_LO".to_string(), v8(k::P_TIMES_2_LO)));
+        out.push(("avx2.P_TIMES_2_HI".to_string(), v8(k::P_TIMES_2_HI)));
+        out.push(("avx2.P_TIMES_16_LO".to_string(), v8(k::P_TIMES_16_LO)));
+        out.push(("avx2.P_TIMES_16_HI".to_string(), v8(k::P_TIMES_16_HI)));
+        out.push(("avx2.EXTENDEDPOINT_IDENTITY".to_string(), to_raw(&k::EXTENDEDPOINT_IDENTITY.verif_inner()).to_vec()));
+        out.push(("avx2.CACHEDPOINT_IDENTITY".to_string(), to_raw(&k::CACHEDPOINT_IDENTITY.verif_inner()).to_vec()));
+        #[cfg(feature = "precomputed-tables")]
+        for (i, c) in k::BASEPOINT_ODD_LOOKUP_TABLE.0.iter().enumerate() {
+            out.push((alloc::format!("avx2.BASEPOINT_ODD_LOOKUP_TABLE.{}", i), to_raw(&c.verif_inner()).to_vec()));
+        }
+        out
+    }
+}
+
+// ------------------------------------------------------------------------
+// AVX-512 IFMA vector field / point hooks
+// ------------------------------------------------------------------------
+
+#[cfg(all(curve25519_dalek_backend = "unstable_avx512", nightly))]
+pub mod ifma {
+    use super::{Fe, RawVec};
+    use crate::backend::vector::ifma::field::{F51x4Reduced, F51x4Unreduced, Lanes, Shuffle};
+    use crate::backend::vector::ifma::{CachedPoint, ExtendedPoint};
+    use crate::backend::vector::packed_simd::u64x4;
+    use crate::edwards::EdwardsPoint;
+
+    pub(crate) fn to_raw(f: &[u64x4; 5]) -> RawVec {
+        let a: [[u64; 4]; 5] = unsafe { core::mem::transmute::<[u64x4; 5], [[u64; 4]; 5]>(*f) };
+        let mut out = [0u64; 40];
+        for i in 0..5 {
+            for j in 0..4 {
+                out[i * 4 + j] = a[i][j];
+            }
+        }
+        out
+    }
+
+    pub(crate) fn from_raw(r: &RawVec) -> [u64x4; 5] {
+        let mut a = [[0u64; 4]; 5];
+        for i in 0..5 {
+            for j in 0..4 {
+                a[i][j] = r[i * 4 + j];
+            }
+        }
+        unsafe { core::mem::transmute::<[[u64; 4]; 5], [u64x4; 5]>(a) }
+    }
+
+    /// (max limb 0 over lanes, max of limbs 1..4 over lanes)
+    #[inline]
+    pub(crate) fn max_limbs(f: &[u64x4; 5]) -> (u64, u64) {
+        let a: [[u64; 4]; 5] = unsafe { core::mem::transmute::<[u64x4; 5], [[u64; 4]; 5]>(*f) };
+        let mut m0 = 0u64;
+        let mut m1 = 0u64;
+        for j in 0..4 {
+            m0 = m0.max(a[0][j]);
+        }
+        for i in 1..5 {
+            for j in 0..4 {
+                m1 = m1.max(a[i][j]);
+            }
+        }
+        (m0, m1)
+    }
+
+    fn shuffle_of(s: &str) -> Shuffle {
+        match s {
+            "AAAA" => Shuffle::AAAA,
+            "BBBB" => Shuffle::BBBB,
+            "CACA" => Shuffle::CACA,
+            "DBBD" => Shuffle::DBBD,
+            "ADDA" => Shuffle::ADDA,
+            "CBCB" => Shuffle::CBCB,
+            "ABAB" => Shuffle::ABAB,
+            "BADC" => Shuffle::BADC,
+            "BACD" => Shuffle::BACD,
+            "ABDC" => Shuffle::ABDC,
+            _ => panic!("verif: unknown shuffle"),
+        }
+    }
+
+    fn lanes_of(s: &str) -> Lanes {
+        match s {
+            "C" => Lanes::C,
+            "D" => Lanes::D,
+            "AB" => Lanes::AB,
+            "AC" => Lanes::AC,
+            "AD" => Lanes::AD,
+            "BCD" => Lanes::BCD,
+            _ => panic!("verif: unknown lanes"),
+        }
+    }
+
+    fn u(r: &RawVec) -> F51x4Unreduced {
+        F51x4Unreduced(from_raw(r))
+    }
+    fn rd(r: &RawVec) -> F51x4Reduced {
+        F51x4Reduced(from_raw(r))
+    }
+
+    pub fn new(x: &[Fe; 4]) -> RawVec {
+        to_raw(&F51x4Unreduced::new(&x[0].0, &x[1].0, &x[2].0, &x[3].0).0)
+    }
+    pub fn split(r: &RawVec) -> [Fe; 4] {
+        let s = u(r).split();
+        [Fe(s[0]), Fe(s[1]), Fe(s[2]), Fe(s[3])]
+    }
+    /// Reduced x Reduced -> Unreduced
+    pub fn mul(a: &RawVec, b: &RawVec) -> RawVec {
+        to_raw(&(&rd(a) * &rd(b)).0)
+    }
+    /// Reduced -> Unreduced
+    pub fn square(a: &RawVec) -> RawVec {
+        to_raw(&rd(a).square().0)
+    }
+    /// `From<F51x4Unreduced> for F51x4Reduced`
+    pub fn reduce(a: &RawVec) -> RawVec {
+        to_raw(&F51x4Reduced::from(u(a)).0)
+    }
+    pub fn negate_lazy(a: &RawVec) -> RawVec {
+        to_raw(&u(a).negate_lazy().0)
+    }
+    /// `Neg for F51x4Reduced`
+    pub fn neg(a: &RawVec) -> RawVec {
+        to_raw(&(-rd(a)).0)
+    }
+    pub fn diff_sum(a: &RawVec) -> RawVec {
+        to_raw(&u(a).diff_sum().0)
+    }
+    pub fn add(a: &RawVec, b: &RawVec) -> RawVec {
+        to_raw(&(u(a) + u(b)).0)
+    }
+    pub fn shuffle(a: &RawVec, ctl: &str) -> RawVec {
+        to_raw(&u(a).shuffle(shuffle_of(ctl)).0)
+    }
+    pub fn shuffle_reduced(a: &RawVec, ctl: &str) -> RawVec {
+        to_raw(&rd(a).shuffle(shuffle_of(ctl)).0)
+    }
+    pub fn blend(a: &RawVec, b: &RawVec, ctl: &str) -> RawVec {
+        to_raw(&u(a).blend(&u(b), lanes_of(ctl)).0)
+    }
+    pub fn blend_reduced(a: &RawVec, b: &RawVec, ctl: &str) -> RawVec {
+        to_raw(&rd(a).blend(&rd(b), lanes_of(ctl)).0)
+    }
+    pub fn mul_consts(a: &RawVec, c: (u32, u32, u32, u32)) -> RawVec {
+        to_raw(&(&rd(a) * c).0)
+    }
+    pub fn conditional_select(a: &RawVec, b: &RawVec, c: bool) -> RawVec {
+        use subtle::ConditionallySelectable;
+        to_raw(&F51x4Reduced::conditional_select(&rd(a), &rd(b), subtle::Choice::from(c as u8)).0)
+    }
+
+    pub fn ext_from_edwards(p: &EdwardsPoint) -> RawVec {
+        to_raw(&ExtendedPoint::from(*p).verif_inner().0)
+    }
+    pub fn ext_to_edwards(r: &RawVec) -> EdwardsPoint {
+        EdwardsPoint::from(ExtendedPoint::verif_from_inner(u(r)))
+    }
+    pub fn ext_double(r: &RawVec) -> RawVec {
+        to_raw(&ExtendedPoint::verif_from_inner(u(r)).double().verif_inner().0)
+    }
+    pub fn ext_mul_by_pow_2(r: &RawVec, k: u32) -> RawVec {
+        to_raw(&ExtendedPoint::verif_from_inner(u(r)).mul_by_pow_2(k).verif_inner().0)
+    }
+    pub fn cached_from_ext(r: &RawVec) -> RawVec {
+        to_raw(&CachedPoint::from(ExtendedPoint::verif_from_inner(u(r))).verif_inner().0)
+    }
+    pub fn cached_neg(r: &RawVec) -> RawVec {
+        to_raw(&(-&CachedPoint::verif_from_inner(rd(r))).verif_inner().0)
+    }
+    pub fn ext_add_cached(a: &RawVec, b: &RawVec) -> RawVec {
+        let e = ExtendedPoint::verif_from_inner(u(a));
+        let c = CachedPoint::verif_from_inner(rd(b));
+        to_raw(&(&e + &c).verif_inner().0)
+    }
+    pub fn ext_sub_cached(a: &RawVec, b: &RawVec) -> RawVec {
+        let e = ExtendedPoint::verif_from_inner(u(a));
+        let c = CachedPoint::verif_from_inner(rd(b));
+        to_raw(&(&e - &c).verif_inner().0)
+    }
+    #[cfg(feature = "alloc")]
+    pub fn table(kind: u32, p: &EdwardsPoint) -> alloc::vec::Vec<RawVec> {
+        use crate::window::{LookupTable, NafLookupTable5, NafLookupTable8};
+        match kind {
+            0 => LookupTable::<CachedPoint>::from(p).0.iter().map(|c| to_raw(&c.verif_inner().0)).collect(),
+            1 => NafLookupTable5::<CachedPoint>::from(p).0.iter().map(|c| to_raw(&c.verif_inner().0)).collect(),
+            2 => NafLookupTable8::<CachedPoint>::from(p).0.iter().map(|c| to_raw(&c.verif_inner().0)).collect(),
+            _ => panic!("verif: table kind"),
+        }
+    }
+    pub fn table_select(p: &EdwardsPoint, x: i8) -> RawVec {
+        use crate::window::LookupTable;
+        to_raw(&LookupTable::<CachedPoint>::from(p).select(x).verif_inner().0)
+    }
+
+    #[cfg(feature = "alloc")]
+    pub fn constants() -> alloc::vec::Vec<(alloc::string::String, alloc::vec::Vec<u64>)> {
+        use crate::backend::vector::ifma::constants as k;
+        use alloc::string::ToString;
+        let mut out = alloc::vec::Vec::new();
+        out.push(("ifma.EXTENDEDPOINT_IDENTITY".to_string(), to_raw(&k::EXTENDEDPOINT_IDENTITY.verif_inner().0)[..20].to_vec()));
+        out.push(("ifma.CACHEDPOINT_IDENTITY".to_string(), to_raw(&k::CACHEDPOINT_IDENTITY.verif_inner().0)[..20].to_vec()));
+        #[cfg(feature = "precomputed-tables")]
+        for (i, c) in k::BASEPOINT_ODD_LOOKUP_TABLE.0.iter().enumerate() {
+            out.push((alloc::format!("ifma.BASEPOINT_ODD_LOOKUP_TABLE.{}", i), to_raw(&c.verif_inner().0)[..20].to_vec()));
+        }
+        out
+    }
+}
+
+// ------------------------------------------------------------------------
+// Constants
+// ------------------------------------------------------------------------
+
+/// Every crate-private constant of the serial backend as raw limbs:
+/// `(name, limbs)`.  Points are emitted coordinate by coordinate
+/// (`NAME.X`, ...), table entries as `NAME.i.j.{y_plus_x,y_minus_x,xy2d}`.
+#[cfg(feature = "alloc")]
+pub fn constants() -> alloc::vec::Vec<(alloc::string::String, alloc::vec::Vec<u64>)> {
+    use crate::constants as k;
+    use alloc::format;
+    use alloc::string::ToString;
+    use alloc::vec::Vec;
+    let mut out: Vec<(alloc::string::String, Vec<u64>)> = Vec::new();
+    let fe = |f: &FieldElement| Fe(*f).limbs().to_vec();
+    macro_rules! fconst {
+        ($($n:ident),*) => { $( out.push((format!("fe.{}", stringify!($n)), fe(&k::$n))); )* };
+    }
+    fconst!(
+        MINUS_ONE, EDWARDS_D, EDWARDS_D2, ONE_MINUS_EDWARDS_D_SQUARED, EDWARDS_D_MINUS_ONE_SQUARED,
+        SQRT_AD_MINUS_ONE, INVSQRT_A_MINUS_D, SQRT_M1, APLUS2_OVER_FOUR, MONTGOMERY_A, MONTGOMERY_A_NEG
+    );
+    out.push(("fe.ZERO".to_string(), fe(&FieldElement::ZERO)));
+    out.push(("fe.ONE".to_string(), fe(&FieldElement::ONE)));
+    out.push(("fe.TYPE_MINUS_ONE".to_string(), fe(&FieldElement::MINUS_ONE)));
+    out.push(("sc.L".to_string(), k::L.0.iter().map(|x| *x as u64).collect()));
+    out.push(("sc.R".to_string(), k::R.0.iter().map(|x| *x as u64).collect()));
+    out.push(("sc.RR".to_string(), k::RR.0.iter().map(|x| *x as u64).collect()));
+    out.push(("sc.LFACTOR".to_string(), alloc::vec![k::LFACTOR as u64]));
+    out.push(("sc.BASEPOINT_ORDER_PRIVATE".to_string(), k::BASEPOINT_ORDER_PRIVATE.bytes.iter().map(|x| *x as u64).collect()));
+    let mut pt = |name: alloc::string::String, p: &EdwardsPoint| {
+        out.push((format!("{}.X", name), fe(&p.X)));
+        out.push((format!("{}.Y", name), fe(&p.Y)));
+        out.push((format!("{}.Z", name), fe(&p.Z)));
+        out.push((format!("{}.T", name), fe(&p.T)));
+    };
+    pt("pt.ED25519_BASEPOINT_POINT".to_string(), &k::ED25519_BASEPOINT_POINT);
+    pt("pt.RISTRETTO_BASEPOINT_POINT".to_string(), &k::RISTRETTO_BASEPOINT_POINT.0);
+    for (i, t) in k::EIGHT_TORSION.iter().enumerate() {
+        pt(format!("pt.EIGHT_TORSION.{}", i), t);
+    }
+    #[cfg(feature = "precomputed-tables")]
+    {
+        for (i, t) in k::ED25519_BASEPOINT_TABLE.0.iter().enumerate() {
+            for (j, n) in t.0.iter().enumerate() {
+                out.push((format!("tab.ED25519_BASEPOINT_TABLE.{}.{}.y_plus_x", i, j), fe(&n.y_plus_x)));
+                out.push((format!("tab.ED25519_BASEPOINT_TABLE.{}.{}.y_minus_x", i, j), fe(&n.y_minus_x)));
+                out.push((format!("tab.ED25519_BASEPOINT_TABLE.{}.{}.xy2d", i, j), fe(&n.xy2d)));
+            }
+        }
+        for (i, n) in k::AFFINE_ODD_MULTIPLES_OF_BASEPOINT.0.iter().enumerate() {
+            out.push((format!("tab.AFFINE_ODD_MULTIPLES_OF_BASEPOINT.{}.y_plus_x", i), fe(&n.y_plus_x)));
+            out.push((format!("tab.AFFINE_ODD_MULTIPLES_OF_BASEPOINT.{}.y_minus_x", i), fe(&n.y_minus_x)));
+            out.push((format!("tab.AFFINE_ODD_MULTIPLES_OF_BASEPOINT.{}.xy2d", i), fe(&n.xy2d)));
+        }
+        // RISTRETTO_BASEPOINT_TABLE is a pointer cast of ED25519_BASEPOINT_TABLE: read entry 0.1 through it
+        let rt = &k::RISTRETTO_BASEPOINT_TABLE.0;
+        out.push(("tab.RISTRETTO_BASEPOINT_TABLE.0.0.y_plus_x".to_string(), fe(&rt.0[0].0[0].y_plus_x)));
+        out.push(("tab.RISTRETTO_BASEPOINT_TABLE.31.7.xy2d".to_string(), fe(&rt.0[31].0[7].xy2d)));
+    }
+    out
+}
